@@ -88,9 +88,40 @@ class SymArray:
 
 
 class NumpyBridge(TorchFunctionMode):
+    """also patches torch.Tensor.numpy / torch.tensor directly while active: inside a subclass's __torch_dispatch__ the
+    torch-function modes are not consulted, and a silent escape there would lose the symbols"""
+
     def __init__(self, mode):
         super().__init__()
         self.mode = mode
+
+    def __enter__(self):
+        self._orig_numpy, self._orig_tensor = torch.Tensor.numpy, torch.tensor
+        bridge = self
+
+        def numpy(t, *a, **k):
+            if type(t) is torch.Tensor and bridge.mode.is_sym(t):
+                return SymArray(bridge.mode.ctx, bridge.mode.read(t), t.dtype)
+            return bridge._orig_numpy(t, *a, **k)
+
+        def tensor(data, *a, **k):
+            if isinstance(data, SymArray):
+                t = bridge._orig_tensor(data.concrete(), **{kk: v for kk, v in k.items() if kk in ("dtype", "device")})
+                terms = data.terms
+                if t.dtype != data.tdt:
+                    c = bridge.mode.ctx
+                    terms = obj_array(terms.shape, [c.cast(x, t.dtype) for x in terms.reshape(-1)])
+                bridge.mode.write(t, terms)
+                return t
+            return bridge._orig_tensor(data, *a, **k)
+
+        torch.Tensor.numpy = numpy
+        torch.tensor = tensor
+        return super().__enter__()
+
+    def __exit__(self, *a):
+        torch.Tensor.numpy, torch.tensor = self._orig_numpy, self._orig_tensor
+        return super().__exit__(*a)
 
     def __torch_function__(self, func, types, args=(), kwargs=None):
         kwargs = kwargs or {}
